@@ -19,6 +19,24 @@ Theorem C17_no_nil_callback :
   forall k s, reach GuardNow k s -> crashed s = false.
 Proof. exact never_crashes. Qed.
 Print Assumptions C17_no_nil_callback.
+(* the error callback: the connection goroutine and serve (reject path, drop paths) report errors through
+   the local onErrorFunc, which is the user's OnErrorFunc if set and the logging default otherwise --
+   never nil.  C17_no_nil_callback covers these steps (LErrCb, LServeErrCb) like every other; a Close()
+   that fails on the reject path with OnErrorFunc unset is harmless, whereas the same code calling the
+   raw field s.OnErrorFunc crashes the process (comparison variant RawErr). *)
+Theorem C17_serve_error_callback_safe :
+  forall k s c s', step GuardNow k s (LServeErrCb c) = Some s' -> crashed s' = false.
+Proof. exact serve_err_cb_safe. Qed.
+Print Assumptions C17_serve_error_callback_safe.
+Theorem C17_raw_error_field_refuted :
+  exists s, reach RawErr cfg_accept_only s /\ crashed s = true.
+Proof. exact raw_error_field_crashes. Qed.
+Print Assumptions C17_raw_error_field_refuted.
+Example C17_reject_close_error_run :
+  exists s x, run GuardNow cfg_accept_only init reject_close_error_run = Some s /\ crashed s = false /\ sp s = SLoop /\
+              get s 0 = Some x /\ ph x = PRejected /\ sock x = false /\ close_cb x = 0 /\ errs s = 0.
+Proof. exact now_reject_close_error_ok. Qed.
+
 Theorem C17_shutdown_never_panics :
   forall k s, reach GuardNow k s -> sd s <> SdReturned EPanic.
 Proof. intros k s. exact (no_shutdown_panic GuardNow k s eq_refl). Qed.
@@ -104,6 +122,22 @@ Theorem C17_shutdown_returned_nil :
 Proof. exact good_shutdown. Qed.
 Print Assumptions C17_shutdown_returned_nil.
 
+(* ... and this does not depend on which call of Shutdown it is, nor on its result being nil rather than the
+   error of closing an already closed listener (a retry after a call that gave up on its context):
+   whenever Shutdown has returned from a pass that found everything idle, no connection is in the map,
+   none is inside an exchange, none owes a reply, every live connection's socket is closed *)
+Theorem C17_no_exchange_after_graceful_return :
+  forall k s c x, reach GuardNow k s -> sd s = SdReturned ENil \/ sd s = SdReturned EOther -> get s c = Some x ->
+  handling_ph (ph x) = false /\ owed x = [] /\ inmap x = false /\ (is_live (ph x) = true -> sock x = false).
+Proof. exact no_exchange_after_return. Qed.
+Print Assumptions C17_no_exchange_after_graceful_return.
+Example C17_repeated_shutdown :
+  exists s1, run GuardNow cfg_none init repeated_shutdown_prefix = Some s1 /\
+    step GuardNow cfg_none s1 LSdReturn = None /\ step GuardNow cfg_none s1 (LSdClose 0) = None /\
+    exists s2 x, run GuardNow cfg_none s1 repeated_shutdown_rest = Some s2 /\ sd s2 = SdReturned EOther /\
+      get s2 0 = Some x /\ replied x = 1 /\ owed x = [] /\ sock x = false /\ sd_via x = ViaCas.
+Proof. exact repeated_shutdown_example. Qed.
+
 (* replies, in EVERY reachable state and for ALL of Shutdown's paths: no reply is ever lost to a close
    by the server ([lost] counts writes of owed replies that failed on a socket the server side had
    closed); a socket the server side has closed owes no reply; whatever Shutdown closed (sd_via set:
@@ -155,9 +189,9 @@ Proof. exact now_shutdown_before_serve_ok. Qed.
 Print Assumptions C17_shutdown_before_serve_run.
 
 (* (f) cancel.  Cancelling enables the AfterFunc goroutine's step that closes the listener (and it
-   stays enabled until taken); once the listener is closed serve takes at most 6 more steps in ANY
-   continuation (the longest: accept callback, select, trackConn refusing, close, close callback,
-   Accept failing), has a next step whenever Shutdown does not hold the mutex, and a ServeReturn step
+   stays enabled until taken); once the listener is closed serve takes at most 8 more steps in ANY
+   continuation (the longest: accept callback, select, trackConn refusing, failing close, error callback,
+   close callback, Accept failing, return), has a next step whenever Shutdown does not hold the mutex, and a ServeReturn step
    after a cancel (or shutdown) can only carry ErrServerClosed. *)
 Theorem C17_cancel_closes_listener :
   forall v k s, crashed s = false -> cancelled s = true -> published (sp s) = true -> returned (sp s) = false ->
@@ -165,11 +199,11 @@ Theorem C17_cancel_closes_listener :
 Proof. exact cancel_enables_close. Qed.
 Print Assumptions C17_cancel_closes_listener.
 Theorem C17_serve_bounded_after_close :
-  forall v k ls s s', lis_open s = false -> run v k s ls = Some s' ->
-  count_serve ls + serve_left (sp s') <= serve_left (sp s) /\ count_serve ls <= 6 /\ lis_open s' = false.
+  forall v k ls s s', v_raw_err v = false -> lis_open s = false -> run v k s ls = Some s' ->
+  count_serve ls + serve_left (sp s') <= serve_left (sp s) /\ count_serve ls <= 8 /\ lis_open s' = false.
 Proof.
-  intros v k ls s s' Hl H. destruct (serve_bounded v k ls s s' Hl H) as [A B].
-  split; [exact A|]. split; [exact (serve_bounded_6 v k ls s s' Hl H)|exact B].
+  intros v k ls s s' Hv Hl H. destruct (serve_bounded v k Hv ls s s' Hl H) as [A B].
+  split; [exact A|]. split; [exact (serve_bounded_8 v k ls s s' Hv Hl H)|exact B].
 Qed.
 Print Assumptions C17_serve_bounded_after_close.
 Theorem C17_serve_progress :
